@@ -268,6 +268,18 @@ func c15TimersChangeReported(c *Ctx, rule string) {
 					if p != blk && !reached[p] {
 						continue
 					}
+					// an edge that the facts rule out (the branch at the end of p is decided the other way) delivers nothing
+					if iff, isIf := p.Instrs[len(p.Instrs)-1].(*ssa.If); isIf && len(p.Succs) == 2 && p.Succs[0] != p.Succs[1] {
+						if cv, ck := eval(iff.Cond, ret, d+1); ck {
+							taken := p.Succs[1]
+							if cv {
+								taken = p.Succs[0]
+							}
+							if taken != x.Block() {
+								continue
+							}
+						}
+					}
 					v2, known := eval(x.Edges[i], ret, d+1)
 					if !known || (n > 0 && v2 != val) {
 						return false, false
